@@ -100,6 +100,15 @@ func checkBCE(c *an.Ctx, inFuncs map[string]bool, what string) int {
 			why, ok = bceReviewed32[key]
 		}
 		pos := fmt.Sprintf("%s:%d", s.File, s.Line)
+		if ok {
+			if vf := bceVerify[key]; vf != nil {
+				in := c.P.InstrAt(s.Pos)
+				good := in != nil && vf(in)
+				c.Check(good, what+" | reviewed residual still justified: "+key, pos, why,
+					"the compiler cannot prove this index/slice and the guard that justified the reviewed exception is no longer found ("+why+")")
+				continue
+			}
+		}
 		c.Check(ok, what+" | unproved "+s.Kind+" "+key, pos, "reviewed residual: "+why,
 			"the compiler's prove pass cannot show this index/slice to be in range and it is not a reviewed residual: a length guard was weakened or removed, or new unguarded indexing of peer-controlled data was added")
 	}
@@ -418,4 +427,185 @@ func c08r3(c *an.Ctx) {
 		c.Check(dataOK, "ParseFrame | payload and remainder are complementary slices at the announced length", c.At(ret), "", "fr.Data and the returned remainder do not split the input at the same offset")
 	}
 	c.Floor("returns of ParseFrame", 1, n)
+}
+
+// bceVerify re-derives, on the current source, the structural reason recorded
+// for a reviewed residual (so that weakening the guard is not hidden by the table).
+var bceVerify = map[string]func(in ssa.Instruction) bool{
+	"unescape | s[i+2]":              indexGuardedByLen,
+	"unescape | s[i+1]":              indexGuardedByLen,
+	"buildContext | entry[index+1:]": sliceAfterIndexByte,
+	"grpcRead | tmp[1:5]":            sliceOfExactRead,
+	"getCode | m.Call(nil)[0]":       indexOfCallResult,
+}
+
+func offsetOf(v ssa.Value) (ssa.Value, int64) {
+	for {
+		if cv, ok := v.(*ssa.Convert); ok {
+			v = cv.X
+			continue
+		}
+		break
+	}
+	if b, ok := v.(*ssa.BinOp); ok && b.Op == token.ADD {
+		if k, isC := an.ConstInt(b.Y); isC {
+			base, k0 := offsetOf(b.X)
+			return base, k0 + k
+		}
+	}
+	return v, 0
+}
+
+func lenOperand(v ssa.Value) ssa.Value {
+	for {
+		if cv, ok := v.(*ssa.Convert); ok {
+			v = cv.X
+			continue
+		}
+		break
+	}
+	if call, ok := v.(*ssa.Call); ok {
+		if b, isB := call.Common().Value.(*ssa.Builtin); isB && b.Name() == "len" {
+			return call.Common().Args[0]
+		}
+	}
+	return nil
+}
+
+// indexGuardedByLen: x[idx] is dominated by a test establishing idx' < len(x) with idx <= idx'.
+func indexGuardedByLen(in ssa.Instruction) bool {
+	var x, idx ssa.Value
+	switch i := in.(type) {
+	case *ssa.Lookup:
+		x, idx = i.X, i.Index
+	case *ssa.IndexAddr:
+		x, idx = i.X, i.Index
+	case *ssa.Index:
+		x, idx = i.X, i.Index
+	default:
+		return false
+	}
+	base, off := offsetOf(idx)
+	for _, g := range an.GuardsOf(in.Block()) {
+		b, ok := g.Cond.(*ssa.BinOp)
+		if !ok {
+			continue
+		}
+		lo := lenOperand(b.Y)
+		if lo == nil || lo != x {
+			continue
+		}
+		below := (b.Op == token.LSS && g.True) || (b.Op == token.GEQ && !g.True)
+		belowEq := (b.Op == token.LEQ && g.True) || (b.Op == token.GTR && !g.True)
+		gb, goff := offsetOf(b.X)
+		if gb != base {
+			continue
+		}
+		if below && off <= goff && off >= 0 {
+			return true
+		}
+		if belowEq && off < goff && off >= 0 {
+			return true
+		}
+	}
+	return false
+}
+
+// sliceAfterIndexByte: x[i+1:] where i = strings.IndexByte(x, _) and i >= 0 on this path.
+func sliceAfterIndexByte(in ssa.Instruction) bool {
+	sl, ok := in.(*ssa.Slice)
+	if !ok || sl.Low == nil || sl.High != nil {
+		return false
+	}
+	base, off := offsetOf(sl.Low)
+	call, ok := base.(*ssa.Call)
+	if !ok || off != 1 {
+		return false
+	}
+	obj := an.CalleeObj(call.Common())
+	if obj == nil || (obj.FullName() != "strings.IndexByte" && obj.FullName() != "strings.Index" && obj.FullName() != "bytes.IndexByte") {
+		return false
+	}
+	if call.Common().Args[0] != sl.X {
+		return false
+	}
+	for _, g := range an.GuardsOf(in.Block()) {
+		b, ok := g.Cond.(*ssa.BinOp)
+		if !ok || b.X != ssa.Value(call) {
+			continue
+		}
+		k, isC := an.ConstInt(b.Y)
+		if !isC {
+			continue
+		}
+		if (b.Op == token.GEQ && g.True && k >= 0) || (b.Op == token.LSS && !g.True && k >= 0) || (b.Op == token.GTR && g.True && k >= -1) || (b.Op == token.NEQ && g.True && k == -1) {
+			return true
+		}
+	}
+	return false
+}
+
+// sliceOfExactRead: tmp[a:b] with constant b <= n where tmp, err = readExactly(r, n) and err == nil here.
+func sliceOfExactRead(in ssa.Instruction) bool {
+	sl, ok := in.(*ssa.Slice)
+	if !ok || sl.High == nil {
+		return false
+	}
+	hi, isC := an.ConstInt(sl.High)
+	if !isC {
+		return false
+	}
+	ex, ok := sl.X.(*ssa.Extract)
+	if !ok || ex.Index != 0 {
+		return false
+	}
+	call, ok := ex.Tuple.(*ssa.Call)
+	if !ok {
+		return false
+	}
+	callee := call.Common().StaticCallee()
+	if callee == nil || callee.Name() != "readExactly" {
+		return false
+	}
+	n, isC := an.ConstInt(call.Common().Args[1])
+	if !isC || n < hi {
+		return false
+	}
+	// readExactly must return a slice of exactly n bytes: make([]byte, n)
+	okMake := false
+	an.Instrs(callee, func(i2 ssa.Instruction) {
+		if mk, isMk := i2.(*ssa.MakeSlice); isMk && an.Resolve(mk.Len) == ssa.Value(callee.Params[1]) {
+			okMake = true
+		}
+		if mk, isMk := i2.(*ssa.MakeSlice); isMk {
+			if cv, isCv := mk.Len.(*ssa.Convert); isCv && cv.X == ssa.Value(callee.Params[1]) {
+				okMake = true
+			}
+		}
+	})
+	return okMake
+}
+
+// indexOfCallResult: v.Call(nil)[k] guarded by NumOut() == m with k < m.
+func indexOfCallResult(in ssa.Instruction) bool {
+	ia, ok := in.(*ssa.IndexAddr)
+	if !ok {
+		return false
+	}
+	k, isC := an.ConstInt(ia.Index)
+	if !isC {
+		return false
+	}
+	for _, g := range an.GuardsOf(in.Block()) {
+		b, ok := g.Cond.(*ssa.BinOp)
+		if !ok || b.Op != token.EQL || !g.True {
+			continue
+		}
+		if call, ok := b.X.(*ssa.Call); ok && call.Common().IsInvoke() && call.Common().Method.Name() == "NumOut" {
+			if m, isM := an.ConstInt(b.Y); isM && k < m {
+				return true
+			}
+		}
+	}
+	return false
 }
